@@ -40,6 +40,8 @@ const SHARE_CLASSES: &[&str] = &["unshare-mismatch", "unshare-while-posted", "sh
 /// Register/configuration accesses that leave the region or window the device declared (C07:
 /// device-reported configuration values must not lead to an invalid memory access).
 const WILD_ACCESS_CLASSES: &[&str] = &["config-access-out-of-window", "config-access-outside-window", "config-access-elsewhere", "pci-access-outside-requested-window", "pci-access-outside-structures", "mmio-out-of-region", "mmio-wild-access"];
+/// Memory the device may still use is released or handed out (C07, C09).
+const RELEASE_CLASSES: &[&str] = &["posted-buffer-freed", "live-queue-memory-freed", "pinned-dma-freed", "dma-dealloc-mismatch", "unshare-mismatch", "unshare-while-posted", "device-mem-fault", "slice-exceeds-buffer"];
 /// Notification suppression in both directions (C05).
 const NOTIFY_CLASSES: &[&str] = &["lost-notification", "interrupt-not-armed", "used-event-not-rearmed", "event-idx-not-negotiated", "wait-never-ends"];
 
@@ -84,6 +86,7 @@ pub fn spec(id: &str) -> Option<Spec> {
             batches: vec![
                 b("history", scen::queue::history, 6000, 30_000),
                 b("history_faulty", scen::queue::history_faulty, 3000, 20_000),
+                b("blocking", scen::queue::blocking_history, 3000, 60_000),
                 heavy("wrap", scen::queue::wrap_history, 32, 256),
             ],
             extras: vec![],
@@ -129,7 +132,10 @@ pub fn spec(id: &str) -> Option<Spec> {
             id: "C06",
             level: "exploration",
             rule: "grid of 16 queue sizes x {modern, legacy} x 8 flag combinations x 5 transport answers (free, in use, max=SIZE, max=SIZE/2, max=0) = 1280 cells, each cell visited in every round (run i -> cell i mod 1280; exhaustive for the grid), seed varies DMA placement, queue index and second-allocation failure; distinct = distinct event-log hash; non-trivial = creation succeeded (full layout oracle ran) or failed at the second allocation",
-            batches: vec![grid("grid", scen::c06::grid_run, scen::c06::GRID, 3, 200)],
+            batches: vec![
+                grid("grid", scen::c06::grid_run, scen::c06::GRID, 3, 200),
+                b("queue_lifecycle", scen::queue::history, 1500, 15_000).only(&["dma-leak", "dma-dealloc-mismatch", "live-queue-memory-freed"]),
+            ],
             extras: vec![],
             assumptions: vec!["real MMIO/PCI transports are covered by C10/C11 scenarios; here the transport is the model transport"],
             real: vec!["virtio_drivers::queue::VirtQueue::new, VirtQueueLayout::allocate_legacy/allocate_flexible, queue_part_sizes, Dma::new/Drop"],
@@ -139,7 +145,11 @@ pub fn spec(id: &str) -> Option<Spec> {
             id: "C10",
             level: "exploration",
             rule: "random operation sequences (every Transport method, random queue index / size / 64-bit address triple / feature word / status / interrupt status) on the real MmioTransport and SomeTransport::Mmio over a register-level reference device, legacy and modern, with QueueReady clearing up to 3 reads late; random header words and region sizes at probe time; distinct = distinct event-log hash; non-trivial = at least one queue_set executed (ops batch) or an acceptable header (probe batch)",
-            batches: vec![b("ops", scen::c10::ops_run, 20_000, 1_500_000), b("probe", scen::c10::probe_run, 20_000, 1_500_000)],
+            batches: vec![
+                b("ops", scen::c10::ops_run, 20_000, 1_500_000),
+                b("probe", scen::c10::probe_run, 20_000, 1_500_000),
+                b("config_bounds", scen::c13::bounds, 5000, 300_000).only(&["mmio-out-of-region", "mmio-wild-access", "mmio-access-width", "mmio-reserved-register", "config-access-out-of-window", "config-access-elsewhere", "config-access-on-failure"]),
+            ],
             extras: vec![],
             assumptions: vec!["register semantics transcribed from VirtIO 1.2 section 4.2.2 / 4.2.4 (DESIGN appendix A)", "DRIVER_OK is never set in this scenario; queue addresses are arbitrary numbers"],
             real: vec!["virtio_drivers::transport::mmio::MmioTransport (all Transport methods, new, Drop)", "virtio_drivers::transport::SomeTransport (Mmio variant)", "safe-mmio field!/read/write paths (through the custom-mmio seam)"],
@@ -251,7 +261,7 @@ pub fn spec(id: &str) -> Option<Spec> {
             id: "C09",
             level: "fault_enumeration",
             rule: "fault enumeration: grid of 11 drivers x 8 transport kinds x k = 1..14 where the k-th DMA allocation of construction + usage script (incl. GPU framebuffer and cursor setup) fails, every cell visited in every round (k beyond the number of allocations = fault-free run); plus seeded drop-at-a-random-point histories with requests outstanding on every transport kind, and construction failing on malformed configuration space; non-trivial = the injected failure was reached and reported (grid) / the history ran and the driver was dropped (drop) / construction failed (bad config)",
-            batches: vec![grid("alloc_fail", scen::c09::alloc_fail, scen::c09::GRID, 3, 40), b("drop_anywhere", scen::c09::drop_anywhere, 6000, 75_000), b("bad_config", scen::c09::bad_config, 2000, 50_000)],
+            batches: vec![grid("alloc_fail", scen::c09::alloc_fail, scen::c09::GRID, 3, 40), b("drop_anywhere", scen::c09::drop_anywhere, 6000, 75_000), b("bad_config", scen::c09::bad_config, 2000, 50_000), b("sound_errors", scen::c20::sound_faulty, 3000, 100_000).only(RELEASE_CLASSES)],
             extras: vec![],
             assumptions: vec!["a device reset includes the reset every in-tree transport performs in its own Drop", "HypPciTransport excluded", "heap watch covers up to 256 posted buffers at a time"],
             real: vec!["every driver's new() and Drop, Dma::new/Drop, VirtQueue::new, OwningQueue::new/Drop", "MmioTransport / PciTransport / SomeTransport Drop (device reset)"],
@@ -307,6 +317,7 @@ pub fn spec(id: &str) -> Option<Spec> {
                 b("net_short_len", scen::c16::buf_run_short_len, 3000, 60_000),
                 b("owning_scribbled", scen::c07::owning_scribbled, 2000, 50_000),
                 b("vsock_scribbled", scen::c07::vsock_scribbled, 2000, 50_000),
+                b("sound_errors", scen::c20::sound_faulty, 3000, 100_000).only(RELEASE_CLASSES),
                 b("config_bounds", scen::c13::bounds, 3000, 150_000).only(WILD_ACCESS_CLASSES),
                 b("pci_functions", scen::c11::run, 5000, 300_000).only(WILD_ACCESS_CLASSES),
             ],
